@@ -5,7 +5,7 @@ import time
 
 def use(obj, kind, hold):
     """Runs in a LokyProcess child on a pickled copy of the primitive."""
-    if kind in ("Lock", "RLock", "Semaphore", "BoundedSemaphore"):
+    if kind in ("Lock", "RLock", "Semaphore", "BoundedSemaphore", "NamedSem"):
         obj.acquire()
         time.sleep(hold)
         obj.release()
